@@ -12,6 +12,8 @@
 package c11
 
 import (
+	"encoding/json"
+	"os"
 	"runtime"
 	"sync"
 	"testing"
@@ -31,6 +33,20 @@ func TestCheck(t *testing.T) {
 	r.Assume("1 unit = 1 ms of virtual time; thresholds are >= 1 unit (bb_worker hard-codes 100 ms; a zero threshold makes the re-arm loop spin and is outside the domain)")
 	r.Assume("decided on the simulated base clock only; OS scheduling jitter between a base timer firing and its handling is not modelled (the driver waits for quiescence after every firing)")
 	r.Assume("fake runner returns status.FromContextError(ctx.Err()) when its context ends, as a gRPC client call does")
+	if f := r.ReplayFile(); f != "" {
+		var w struct {
+			Witness struct {
+				Case tcase `json:"case"`
+			} `json:"witness"`
+		}
+		b, err := os.ReadFile(f)
+		if err != nil || json.Unmarshal(b, &w) != nil || w.Witness.Case.Kind == "" {
+			r.Inconclusive("cannot read replay file %s", f)
+			return
+		}
+		runCase(r, w.Witness.Case)
+		return
+	}
 	for _, s := range []string{"suspension-spanning-rearm", "suspension-at-creation", "cap-reached", "event-exactly-at-expiry", "zero-timeout",
 		"early-cancel", "parent-cancel", "via-blob-access", "via-directory-fetcher", "remaining-equals-threshold-rearmed", "deadline-by-unsuspended-time"} {
 		r.Floor(s, 10)
@@ -38,9 +54,9 @@ func TestCheck(t *testing.T) {
 	r.Floor("executor-deadline-exceeded", 5)
 	r.Floor("executor-finished-in-time", 5)
 
-	nCtx := r.Pick(6000, 120000)
-	nTimer := r.Pick(2500, 50000)
-	nExec := r.Pick(300, 5000)
+	nCtx := r.Pick(4000, 120000)
+	nTimer := r.Pick(1600, 50000)
+	nExec := r.Pick(240, 5000)
 
 	jobs := make(chan tcase, 64)
 	var wg sync.WaitGroup
